@@ -21,6 +21,7 @@ import (
 	"mltwist/verifh/emuchk"
 	"mltwist/verifh/mon"
 	"mltwist/verifh/ptyx"
+	"mltwist/verifh/refrv"
 )
 
 var workDir, binPath string
@@ -68,7 +69,61 @@ func validFile(r *rand.Rand) *elfgen.File {
 
 // makeInput produces file content and a class label.
 func makeInput(r *rand.Rand) ([]byte, string) {
-	switch k := r.Intn(100); {
+	switch k := r.Intn(120); {
+	case k >= 110:
+		// entry point anywhere around the code: inside every instruction (also the last
+		// one of a block and of the image), at the end, outside, zero
+		f := validFile(r)
+		n := uint64(len(f.Secs[0].Data))
+		switch r.Intn(6) {
+		case 0:
+			f.Entry = emuchk.Code + uint64(r.Intn(int(n)+8))
+		case 1:
+			f.Entry = emuchk.Code + n - uint64(1+r.Intn(3)) // inside the last instruction
+		case 2:
+			f.Entry = emuchk.Code + 4*uint64(r.Intn(int(n/4))) + uint64(1+r.Intn(3))
+		case 3:
+			f.Entry = emuchk.Code + n
+		case 4:
+			f.Entry = emuchk.Code - uint64(1+r.Intn(8))
+		default:
+			f.Entry = []uint64{0, 1, ^uint64(0), emuchk.Data, 1 << 63}[r.Intn(5)]
+		}
+		bs, _ := f.Bytes()
+		return bs, "bad-entry"
+	case k >= 100:
+		// constant jumps and branches to arbitrary even offsets: into the middle of any
+		// instruction (their own, the last of a block, the last of the image), just
+		// outside the code, far away
+		f := validFile(r)
+		code := f.Secs[0].Data
+		nw := len(code) / 4
+		for j := 0; j < 1+r.Intn(3); j++ {
+			i := r.Intn(nw)
+			var off int64
+			switch r.Intn(5) {
+			case 0:
+				off = 2 // inside itself
+			case 1:
+				off = int64(4*(r.Intn(nw)-i)) + 2
+			case 2:
+				off = int64(4*(nw-i)) - 2 // inside the last instruction of the image
+			case 3:
+				off = int64(4*(nw-i)) + int64(2*r.Intn(4)) // at or just behind the end
+			default:
+				off = int64(2 * (r.Intn(2*nw+8) - nw - 4))
+			}
+			var w uint32
+			if r.Intn(2) == 0 {
+				w = refrv.EncImmJ(0x6f|uint32(r.Intn(2))<<7, off) // jal x0/x1
+			} else {
+				w = refrv.EncImmB(0x63|uint32(r.Intn(2))<<12|uint32(r.Intn(8))<<15|uint32(r.Intn(8))<<20, off) // beq/bne
+			}
+			copy(code[4*i:], []byte{byte(w), byte(w >> 8), byte(w >> 16), byte(w >> 24)})
+		}
+		f.Segs[0].Data = code
+		bs, _ := f.Bytes()
+		return bs, "wild-jumps"
 	case k < 25:
 		bs, _ := validFile(r).Bytes()
 		return bs, "valid"
@@ -297,7 +352,7 @@ func min(a, b int) int {
 func main() {
 	mon.Main(mon.Spec{
 		Prop: "C26",
-		Rule: "case = input file and argument vector: valid RV64 ELF files around generated programs, truncations (random and at structural boundaries), header bit flips, non-RISC-V code, huge segment/section sizes, random ELF models, non-ELF content, empty file, directory, missing path, 0 and 2 arguments; the first 400 (thorough 8000) cases run the production binary under a pty with window heights {1,2,5,8,24,40,80} and a quit script, the rest run the identical loading pipeline in-process (10 files per case); non-trivial = binary run that ended (error exit or UI entered), or in-process file that reached instruction parsing; distinct by content",
+		Rule: "case = input file and argument vector: valid RV64 ELF files around generated programs, truncations (random and at structural boundaries), header bit flips, non-RISC-V code, huge segment/section sizes, entry points at every offset in and around the code (inside any instruction incl. the last of a block), constant jumps/branches rewritten to arbitrary even offsets (into the middle of instructions, behind the end), random ELF models, non-ELF content, empty file, directory, missing path, 0 and 2 arguments; the first 400 (thorough 8000) cases run the production binary under a pty with window heights {1,2,5,8,24,40,80} and a quit script, the rest run the identical loading pipeline in-process (10 files per case); non-trivial = binary run that ended (error exit or UI entered), or in-process file that reached instruction parsing; distinct by content",
 		Explanation: "oracle: the production binary (built from the tree under test with the hook guard off) must not die by a signal or with a Go crash, must print 'mltwist: ...' when exiting non-zero, and must have entered the UI when exiting zero; hung runs are counted, not judged; in-process: elf.NewParser -> MachineCode -> Memory -> parser.Parse -> deps.NewCode -> memory.NewBytes must not panic",
 		Assumptions: []string{"binary runs under ulimit -v 2 GiB and a 20 s watchdog", "pty via /dev/ptmx"},
 		Cases: func(t string) int {
@@ -315,7 +370,7 @@ func main() {
 		ParentSetup:    parentSetup,
 		ChildSetup:     childSetup,
 		RlimitAS:       6 << 30,
-		RequiredCounts: []string{"binary_ui_entered", "binary_error_exits", "inprocess_reached_ui", "inprocess_reached_parse", "binary_runs_valid", "binary_runs_truncated", "binary_runs_bitflip"},
+		RequiredCounts: []string{"inprocess_bad-entry", "inprocess_wild-jumps", "binary_ui_entered", "binary_error_exits", "inprocess_reached_ui", "inprocess_reached_parse", "binary_runs_valid", "binary_runs_truncated", "binary_runs_bitflip"},
 		Run:            run,
 	})
 }
